@@ -160,6 +160,27 @@ def install() -> None:
     _cloud.BaseCloud.DEVICE_ID = "00112233445566aa"
     _time.time = _vtime
     _time.monotonic = _vmono
+    # name resolution belongs to the simulated network as well (blocking resolver calls included)
+    import socket as _socket
+    _real_ghbn, _real_gai = _socket.gethostbyname, _socket.getaddrinfo
+
+    def _gethostbyname(host):
+        w = _CUR[0]
+        ip = w.net.resolve(host) if w is not None else None
+        if ip is None and w is not None:
+            raise _socket.gaierror(-2, "Name or service not known")
+        return ip if ip is not None else _real_ghbn(host)
+
+    def _getaddrinfo(host, port, family=0, type=0, proto=0, flags=0):
+        w = _CUR[0]
+        if w is None or host is None:
+            return _real_gai(host, port, family, type, proto, flags)
+        ip = w.net.resolve(host)
+        if ip is None:
+            raise _socket.gaierror(-2, "Name or service not known")
+        return [(_socket.AF_INET, type or _socket.SOCK_STREAM, proto, "", (ip, port or 0))]
+    _socket.gethostbyname = _gethostbyname
+    _socket.getaddrinfo = _getaddrinfo
 
 
 def filler(tag: str, n: int) -> bytes:
